@@ -230,13 +230,13 @@ func init() {
 
 func init() {
 	symExternals["time.Now"] = func(fr *frame, args []value) value {
-		t := X.fresh("time.Now", BV(64))
+		t := X.pinOr(X.fresh("time.Now", BV(64)))
 		X.addPC(BVCmp("bvsge", t, BVConst(0, 64)), BVCmp("bvslt", t, BVConst(1<<62, 64)))
 		if X.lastNow != nil {
 			X.addPC(BVCmp("bvsge", t, X.lastNow))
 		}
 		X.lastNow = t
-		return mkTime(uint64(1), symv{t: t, k: types.Int64})
+		return mkTime(uint64(1), mkScalar(t, types.Int64))
 	}
 }
 
